@@ -20,8 +20,12 @@ async def _replay(path: str, handler) -> BaseException | None:
     f = open(path)
     eng = Engine(None, input_file=f)
     eng._set_msg_handler(handler)
-    await eng.start()
     err: BaseException | None = None
+    try:
+        await eng.start()
+    except BaseException as e:  # noqa: BLE001
+        f.close()
+        return e
     try:
         await eng._protocol._wait_connection_lost
     except BaseException as e:  # noqa: BLE001
@@ -134,3 +138,59 @@ def mutate(rnd: random.Random, s: str) -> str:
         n = rnd.randrange(1, 49)
         return s[:42] + f"{n:03d}" + s[45:]
     return s
+
+
+# ---- a real PortTransport on a pty, with scripted reads -----------------------------------------
+
+
+class ScriptedSerial:
+    def __init__(self, real, chunks):
+        self._real = real
+        self._chunks = list(chunks)
+
+    def read(self, size):
+        return self._chunks.pop(0) if self._chunks else b""
+
+    def __getattr__(self, name):
+        return getattr(self._real, name)
+
+
+class PortRig:
+    """Real PortTransport + real ReadProtocol built by the library's own factories."""
+
+    async def start(self) -> None:
+        from ramses_tx.protocol import protocol_factory
+        from ramses_tx.transport import transport_factory
+
+        self.loop = asyncio.get_running_loop()
+        self.received: list = []
+        self.loop_errors: list = []
+        self.loop.set_exception_handler(lambda lp, ctx: self.loop_errors.append(ctx.get("exception") or ctx.get("message")))
+        self.protocol = protocol_factory(lambda msg: self.received.append(msg), disable_sending=True)
+        self.master, self.slave = os.openpty()
+        self.transport = await transport_factory(
+            self.protocol, port_name=os.ttyname(self.slave), port_config={}, disable_sending=True, loop=self.loop
+        )
+        self.loop.remove_reader(self.transport.serial.fileno())
+        self.real_serial = self.transport._serial
+
+    async def replay(self, chunks: list[bytes]) -> tuple[list, list]:
+        """Feed the reads; returns (messages delivered, exceptions that escaped _read_ready or reached the loop)."""
+        self.received.clear()
+        self.loop_errors.clear()
+        escaped: list = []
+        self.transport._recv_buffer = b""
+        self.transport._serial = ScriptedSerial(self.real_serial, chunks)
+        for _ in range(len(chunks) + 1):
+            try:
+                self.transport._read_ready()
+            except Exception as e:  # noqa: BLE001
+                escaped.append(e)
+        for _ in range(4):
+            await asyncio.sleep(0)
+        return list(self.received), escaped + list(self.loop_errors)
+
+    def stop(self) -> None:
+        self.transport._serial = self.real_serial
+        self.transport.close()
+        os.close(self.master)
